@@ -98,7 +98,8 @@ pub fn check(c: &Case) -> CheckResult {
         })
         .class(if c.core_route { "route:core" } else { "route:rng" })
         .class_if(c.depth > 256, "crossed-refill")
-        .class_if(c.depth > 512, "two-refills"))
+        .class_if(c.depth > 512, "two-refills")
+        .class_if(c.depth > 65536 * 256, "beyond-2^16-blocks"))
 }
 
 pub fn def(ctx: &Ctx) -> PropDef {
@@ -120,6 +121,14 @@ pub fn def(ctx: &Ctx) -> PropDef {
                 check,
             ));
         }
+        // beyond 2^16 blocks (counter-width boundaries): 66 000 blocks = 16.9 M words
+        let long_depth = t.pick(66_000usize, 140_000) * 256;
+        subs.push(PSub::boxed(
+            format!("long/{}", ty.name()),
+            t.pick(2, 8),
+            move || (gens::seed_for(ty, true), any::<bool>()).prop_map(move |(seed, core_route)| Case { wide, seed: Some(seed), depth: long_depth, core_route }).boxed(),
+            check,
+        ));
         subs.push(PSub::boxed(
             format!("unseeded/{}", ty.name()),
             t.pick(40, 400),
